@@ -32,5 +32,7 @@ def run(ctx):
         rr.r_scoring(ctx, tv)
     rr.r_entry_points(ctx)
     # premise C01 ("no stored item is ever unreachable"): its structural clauses are re-checked here
-    from props import C01
+    from props import C01, C11
     C01.rules(ctx)
+    # premise C11 ("each with its true distance"): its structural clauses are re-checked as well
+    C11.structural(ctx)
